@@ -263,3 +263,16 @@ Theorem C01_source_translated :
 Proof. exact source_translated. Qed.
 Print Assumptions C01_source_translated.
 
+
+Theorem C01_poly_radius_is_source :
+  forall (NN : Num) (fmin_ : carrier NN) (l : list (seg NN)), poly_radius NN fmin_ l = fold_left
+    (fun (acc : carrier NN) (p : seg NN) => nmax acc (gen_poly_radius_term NN p)) l fmin_.
+Proof. exact poly_radius_is_source. Qed.
+Print Assumptions C01_poly_radius_is_source.
+
+Theorem C01_mol_radius_is_source :
+  forall (NN : Num) (fmin_ : carrier NN) (l : list (disc NN)), mol_radius NN fmin_ l = fold_left
+    (fun (acc : carrier NN) (p : disc NN) => nmax acc (gen_mol_radius_term NN p)) l fmin_.
+Proof. exact mol_radius_is_source. Qed.
+Print Assumptions C01_mol_radius_is_source.
+
